@@ -11,6 +11,7 @@ from nrel.hive.model.roadnetwork.link import Link
 from nrel.hive.model.roadnetwork.link_id import *
 from nrel.hive.model.roadnetwork.linktraversal import LinkTraversal
 from nrel.hive.model.roadnetwork.route import Route
+from nrel.hive.util.h3_ops import H3Ops
 
 if TYPE_CHECKING:
     from nrel.hive.model.roadnetwork.osm.osm_roadnetwork import OSMRoadNetwork
@@ -109,7 +110,31 @@ def resolve_route_src_dst_positions(
         # for any length inner route, form the total route by attaching these
         # start and end links whose start or end values have been modified to
         # align with the search start/end locations
-        src_link_traversal = src_link.to_link_traversal().update_start(src_link_pos.geoid)
-        dst_link_traversal = dst_link.to_link_traversal().update_end(dst_link_pos.geoid)
+        src_link_traversal = _scale_distance_to_ends(
+            src_link.to_link_traversal().update_start(src_link_pos.geoid), src_link
+        )
+        dst_link_traversal = _scale_distance_to_ends(
+            dst_link.to_link_traversal().update_end(dst_link_pos.geoid), dst_link
+        )
         updated_route = (src_link_traversal,) + inner_route + (dst_link_traversal,)
         return updated_route
+
+
+def _scale_distance_to_ends(link_traversal: LinkTraversal, link: Link) -> LinkTraversal:
+    """
+    a link that is only driven in part (from a position along it, or up to a position along it)
+    only contributes that share of its length to the route. without this, a vehicle standing a
+    metre before the end of a link is charged the time, distance and energy of the whole link.
+
+    :param link_traversal: the traversal whose start or end was moved to a position along the link
+    :param link: the complete road network link
+    :return: the traversal with its distance scaled to the part between its start and end
+    """
+    if link_traversal.start == link.start and link_traversal.end == link.end:
+        return link_traversal
+    full_km = H3Ops.great_circle_distance(link.start, link.end)
+    if full_km <= 0:
+        return link_traversal
+    part_km = H3Ops.great_circle_distance(link_traversal.start, link_traversal.end)
+    share = min(1.0, part_km / full_km)
+    return link_traversal._replace(distance_km=link.distance_km * share)
